@@ -12,7 +12,12 @@ pub struct AlignedBytes {
 impl AlignedBytes {
     pub fn new(size: usize, align: usize) -> Self {
         let layout = Layout::from_size_align(size, align).unwrap();
-        let data = unsafe { alloc(layout) };
+        // `alloc` must not be called with a zero-sized layout: an empty buffer is a dangling, well-aligned pointer.
+        let data = if layout.size() == 0 {
+            core::ptr::null_mut::<u8>().wrapping_add(layout.align())
+        } else {
+            unsafe { alloc(layout) }
+        };
         assert!(!data.is_null());
         Self { data, layout }
     }
@@ -28,7 +33,9 @@ impl AlignedBytes {
 
 impl Drop for AlignedBytes {
     fn drop(&mut self) {
-        unsafe { dealloc(self.data, self.layout) };
+        if self.layout.size() != 0 {
+            unsafe { dealloc(self.data, self.layout) };
+        }
     }
 }
 
